@@ -72,13 +72,15 @@ Payload(S, x, name, p) ==
     [] name = "T"  -> TupAt(<<S.ss[2], S.ss[3]>>, x, p, "T")
     [] name = "St" -> LET v == StructAt([t |-> "Struct", ss |-> <<S.ss[4]>>], x, p) IN IF IsErrN(v) THEN ERRN ELSE V("St", "", v.a)
     [] OTHER -> ERRN
+(* `Variant` alone: names a unit variant, or a variant whose payload can be built from nothing - the payload is read *)
+(* from an empty node, which reads like `~`: a unit, None, an empty sequence / map, a struct all of whose fields are  *)
+(* options, and so on recursively; a tuple variant and scalar payloads cannot                                          *)
+NullStream == <<Ev("S", 0, "~", "p", "")>>
 EnumAt(S, x, i) ==
-  IF x[i].k = "S" THEN       \* `Variant`: names a unit variant, or a newtype variant whose payload can be built from nothing
-     (IF x[i].t = "" /\ x[i].v = "U" THEN V("U", "", <<>>)
-      ELSE IF x[i].t = "" /\ x[i].v = "Nw" /\ S.ss[1].t = "Unit" THEN V("Nw", "", <<V("Unit", "", <<>>)>>)
-      ELSE IF x[i].t = "" /\ x[i].v = "Nw" /\ S.ss[1].t = "Opt" THEN V("Nw", "", <<V("None", "", <<>>)>>)
-      \* (likewise a struct variant all of whose fields are options: the absent payload reads like `St: ~`, an empty struct)
-      ELSE IF x[i].t = "" /\ x[i].v = "St" /\ S.ss[4].t = "Opt" THEN V("St", "", <<V("None", "", <<>>)>>)
+  IF x[i].k = "S" THEN
+     (IF x[i].t # "" THEN ERRN
+      ELSE IF x[i].v = "U" THEN V("U", "", <<>>)
+      ELSE IF x[i].v \in {"Nw", "St"} THEN Payload(S, NullStream, x[i].v, 1)
       ELSE ERRN)
   ELSE IF x[i].k = "MS" THEN
      LET es == Entries(x, i) IN
